@@ -30,7 +30,7 @@ fn gauges_part(rep: &mut Report, thorough: bool) -> (u64, u64, Vec<Value>) {
         }
     };
     // reachable stores from the same search as C01
-    let spec = AlphabetSpec { cfgs: &["K1", "K2", "K3"], clients: 2, addrs: &["192.0.2.9", "192.0.2.10", "198.51.100.10"], ticks: &[150, 300, 301] };
+    let spec = AlphabetSpec { rfc4361_clients: false, cfgs: &["K1", "K2", "K3"], clients: 2, addrs: &["192.0.2.9", "192.0.2.10", "198.51.100.10"], ticks: &[150, 300, 301] };
     let alpha = build_alphabet(&cfgs, &spec);
     let depth = if thorough { 4 } else { 3 };
     let (stats, _found) = match bfs(&cfgs, &alpha, depth, 120.0, 3_000_000, depth) {
